@@ -178,8 +178,10 @@ LongestMatch(t, lx) ==
             IsPrefixAt(OpTable[j][1], t, k[3] + 1) /\ Len(OpTable[j][1]) > k[4] - k[3]
 
 \* grammar tokens <<k, v, nl>> of a lexed text (without the EOF token)
-\* a Num token carries the decimal number its lexeme denotes (canonical <<neg, digits, exp>>)
+\* a Num token carries the decimal number its lexeme denotes (canonical <<neg, digits, exp>>),
+\* a Str token its decoded bytes, names are strings
 GTok(k) == <<k[1], IF k[1] = "Num" THEN FromLiteral(k[5])
-                   ELSE IF k[1] \in {"Str", "Id", "Kw", "typeof"} THEN BytesToStr(k[5]) ELSE k[1], k[6]>>
+                   ELSE IF k[1] = "Str" THEN k[5]
+                   ELSE IF k[1] \in {"Id", "Kw", "typeof"} THEN BytesToStr(k[5]) ELSE k[1], k[6]>>
 GToks(toks) == [i \in 1..(Len(toks) - 1) |-> GTok(toks[i])]
 =============================================================================
